@@ -991,6 +991,12 @@ impl World {
                 continue;
             }
             let got = self.obs.borrow()[k].handles[0].try_get_value();
+            // the panicking accessor must refuse as well
+            let h = self.obs.borrow()[k].handles[0].clone();
+            let via_value = catch(move || h.value());
+            if let (Err(_), Ok(v)) = (&got, &via_value) {
+                violation("C13/value()-readable-while-try_get_value-refuses", format!("after a panic in {at:?}, observer slot {k}: try_get_value = {got:?} but value() returned {v:?}"));
+            }
             match got {
                 Err(_) => {}
                 Ok(v) => {
